@@ -38,3 +38,17 @@ pub fn skip_leaf<'b>(d: &mut crate::decode::Decoder<'b>) -> Result<(), crate::de
         }
     }
 }
+
+// ---- `core::str::from_utf8` replaced by a nondeterministic answer, for harnesses whose contract does not
+// depend on text payloads (they return / assume away string heads).  The real validator's loops are
+// otherwise unwound on every path that can reach `Decoder::str`, which is every `match` on a symbolic
+// initial byte.  Harnesses about text (c11_strings_text, c04_*) use the real function.
+pub fn from_utf8_any(v: &[u8]) -> Result<&str, core::str::Utf8Error> {
+    if kani::any() {
+        // SAFETY (model only): the harnesses using this stub never inspect the text
+        Ok(unsafe { core::str::from_utf8_unchecked(v) })
+    } else {
+        const BAD: [u8; 1] = [0xff];
+        match core::str::from_utf8(&BAD) { Err(e) => Err(e), Ok(_) => unreachable!() }
+    }
+}
